@@ -1,7 +1,8 @@
 PROP = dict(
     module="M3d.Props.C20",
     corr=dict(quick=600, thorough=5000),
-    gen=[],
+    gen=["Kernels"],
+    tie_modules=["M3d.Lemmas.KernelsTieRender"],
     corr_theorems=(
         "estq/estf: M3d.C20.pixel_is_mean (+ early_stop_only_when_converged) — the driver prints meanOf(the samples actually drawn) and their number; "
         "varq/varf/rvarf: variance_unbiased_form; map/img: coords_row_major, each_pixel_once, image_independent_of_schedule, "
@@ -23,6 +24,10 @@ PROP = dict(
         "distinct = distinct operation lines; non-trivial = early stop taken, >1 worker received, hit found, matrix wrapper present (see #stat counters)"
     ),
     trusted=[
+        "regenerated, not hand-written: lean/M3d/Gen/Kernels.lean (Go->Lean translator harness/hlib/go2lean, run on the current "
+        "source on every check); M3d.KernelsTie.Render.* re-prove against it that Camera.axes, NewCameraAt, "
+        "PointLight.ShadeCollision and the Matrix3 algebra (Det, Inverse, MulColumn, Transpose, Mul, NewMatrix3Columns) are the "
+        "model functions of the camera-inverse and lit-scene theorems (plane distance = 1/tan(fov/2))",
         "modelled, not verified: float64 arithmetic is related to the field the theorems are proved over only through the two executions of the same generic model (Rat: exact on dyadic inputs; Float: bit-for-bit)",
         "modelled, not verified: the Go channel + WaitGroup of mapCoordinates as 'every queued entry is received by exactly one worker' (any assignment of queue positions to workers); scheduler, memory model and data-race freedom of img.Data[idx] writes belong to C13",
         "math.Tan (field of view -> plane distance), math.Sqrt and math/rand are parameters of the models (pd, sqrt, draw); Object.Cast of leaf primitives (Sphere/Rect/Triangle intersection, C07) is an oracle — the wrappers are proved correct relative to it",
